@@ -12,7 +12,7 @@ TIER = os.environ.get("SEED_TIER", "quick")
 
 def run(spec, prop=None):
     mid = spec.split(":")[0]
-    prop = spec.split(":")[1] if ":" in spec else mid[:3]
+    prop = spec.split(":")[1] if ":" in spec else mid[:3]  # C07b -> C07
     wt = "/tmp/seed_%s_%s" % (mid, prop)
     subprocess.run(["git", "-C", "/repo", "worktree", "remove", "--force", wt], stdout=subprocess.DEVNULL, stderr=subprocess.DEVNULL)
     subprocess.run(["git", "-C", "/repo", "worktree", "add", "-q", "--detach", wt, "HEAD"], check=True)
